@@ -161,8 +161,8 @@ func (g *gen) genTarget() *vdev {
 		m := "crypto-" + intf
 		nstat := r.Intn(5)
 		ndyn := 0
-		if r.Chance(35) {
-			ndyn = 1 + r.Intn(2)
+		if r.Chance(40) {
+			ndyn = 1 + r.Intn(3)
 		}
 		if nstat+ndyn == 0 {
 			nstat = 1
@@ -552,6 +552,24 @@ func (g *gen) genDevice(b *vdev) (*vdev, []string) {
 			x.Subs = append([]string{"ldap-base-dn DC=example,DC=com", "ldap-scope subtree"}, x.Subs...)
 		}
 	}
+	for _, o := range a.kindObjects("aaa") {
+		if r.Chance(60) {
+			// a server group with several hosts (all with the same attribute map)
+			var host *block
+			for _, x := range a.blocksOf(o) {
+				if contains(x.words(), "host") {
+					host = x
+				}
+			}
+			if host != nil {
+				for h := 0; h < 1+r.Intn(2); h++ {
+					nb := &block{Head: fmt.Sprintf("aaa-server %s (inside) host 10.2.8.%d", o.name, 17+h), Subs: append([]string{}, host.Subs...)}
+					a.insertAfterLast(nb, sameObj(o))
+				}
+				say("aaa-server-group-with-several-hosts")
+			}
+		}
+	}
 	nmut := r.Intn(7)
 	for i := 0; i < nmut; i++ {
 		if lms := a.kindObjects("ldapmap"); len(lms) > 0 && r.Chance(15) {
@@ -592,6 +610,39 @@ func (g *gen) genDevice(b *vdev) (*vdev, []string) {
 			continue
 		}
 		cmaps := a.kindObjects("cmap")
+		if len(cmaps) > 0 && r.Chance(12) {
+			m := Pick(r, cmaps)
+			var dyn []*block
+			for _, x := range a.blocksOf(m) {
+				if cryptoAttrKey(x.words()) == "ipsec-isakmp dynamic" {
+					dyn = append(dyn, x)
+				}
+			}
+			if len(dyn) > 0 && len(dyn) < len(a.seqsOf(m)) && r.Chance(60) {
+				// all dynamic entries of the target are new for the device (the dynamic-maps stay or go with them)
+				gone := r.Chance(50)
+				for _, x := range dyn {
+					a.removeBlock(x)
+					if gone {
+						a.removeAll(ref{"dynmap", x.words()[6]})
+					}
+				}
+				say("dynamic-entries-missing-on-device")
+			}
+			if r.Chance(50) {
+				// the top numbers are taken by dynamic entries the target does not know
+				for j := 0; j < 1+r.Intn(2); j++ {
+					dn := fmt.Sprintf("gone%d@example.com", j)
+					s := fmt.Sprint(65535 - j)
+					if len(a.entry(m, s)) == 0 && !a.exists(ref{"dynmap", dn}) {
+						a.add(fmt.Sprintf("crypto dynamic-map %s 20 set pfs", dn))
+						a.add(fmt.Sprintf("crypto map %s %s ipsec-isakmp dynamic %s", m.name, s, dn))
+						say("top-numbers-occupied-on-device")
+					}
+				}
+			}
+			continue
+		}
 		switch k := r.Intn(100); {
 		case k < 10 && len(cmaps) > 0:
 			// a peer of the target is missing on the device
